@@ -222,6 +222,10 @@ func (r *Runner) cnt(name string, n int) { r.Res.Counters[name] += int64(n) }
 
 // Run executes the program; it stops at the first violation.
 func (r *Runner) Run() *Result {
+	if (r.P.RaceReopen || r.RaceReopen) && r.P.Seed%2 == 0 {
+		atomic.StoreInt64(&RemoveDelayNS, int64(20*time.Millisecond))
+		defer atomic.StoreInt64(&RemoveDelayNS, 0)
+	}
 	if !r.KeepOpen {
 		defer r.cleanup()
 	}
